@@ -165,6 +165,42 @@ def const_param_cases():
     return cases
 
 
+INIT_FID = "aggregate_initialisers_not_range_checked"
+
+
+def initialiser_cases():
+    """initialisers other than `T x = v;`: several declarators in one declaration (local, static, file scope), array literals
+    (1-D, 2-D), struct literals (positional, named): in-range values are stored exactly, out-of-range values stop the program,
+    negatives to unsigned targets are clamped"""
+    cases = []
+    TY = {"tiny": (-128, 127), "short": (-32768, 32767), "int": (-2**31, 2**31 - 1), "unsigned tiny": (0, 255), "unsigned short": (0, 65535)}
+
+    def add(cid, pre, body, show, v, lo, hi, fid):
+        prog = pre + "int main() {\n    println(\"start\");\n" + body + "    println(%s);\n    println(\"END\");\n    return 0;\n}\n" % show
+        if lo <= v <= hi:
+            cases.append({"id": cid, "program": prog, "expect_class": "ok", "expect_stdout": "start\n%d\nEND\n" % v, "finding": fid})
+        elif lo == 0 and v < 0:
+            cases.append({"id": cid, "program": prog, "expect_class": "ok", "expect_stdout": "start\n0\nEND\n", "finding": fid})
+        else:
+            cases.append({"id": cid, "program": prog, "expect_class": "error", "expect_stdout": None, "finding": fid})
+    for ty, (lo, hi) in TY.items():
+        tn = ty.replace(" ", "_")
+        st = "struct S_%s { int pad; %s m; int z; };\n" % (tn, ty)
+        for v in [hi, hi + 1, lo] + ([lo - 1] if lo < 0 else [-1]):
+            lv = str(v) if v >= 0 else "(0 - %d)" % -v
+            add("%s-multidecl-local-%d" % (tn, v), "", "    %s a = 0, b = %s;\n" % (ty, lv), "b", v, lo, hi, None)
+            add("%s-multidecl-first-%d" % (tn, v), "", "    %s a = %s, b = 0;\n" % (ty, lv), "a", v, lo, hi, None)
+            add("%s-multidecl-static-%d" % (tn, v), "", "    static %s a = 0, b = %s;\n" % (ty, lv), "b", v, lo, hi, None)
+            add("%s-multidecl-global-%d" % (tn, v), "%s ga = 0, gb = %s;\n" % (ty, lv), "", "gb", v, lo, hi, INIT_FID)
+            add("%s-arraylit-%d" % (tn, v), "", "    %s[3] a = [0, 1, %s];\n" % (ty, lv), "a[2]", v, lo, hi, INIT_FID)
+            add("%s-arraylit-2d-%d" % (tn, v), "", "    %s[2][2] a = [[0, 1], [%s, 0]];\n" % (ty, lv), "a[1][0]", v, lo, hi, INIT_FID)
+            add("%s-arraylit-assign-%d" % (tn, v), "", "    %s[3] a = [0, 0, 0];\n    a = [0, 1, %s];\n" % (ty, lv), "a[2]", v, lo, hi, INIT_FID)
+            add("%s-structlit-%d" % (tn, v), st, "    S_%s s = {1, %s, 3};\n" % (tn, lv), "s.m", v, lo, hi, INIT_FID)
+            add("%s-structlit-named-%d" % (tn, v), st, "    S_%s s = {pad: 1, m: %s, z: 3};\n" % (tn, lv), "s.m", v, lo, hi, INIT_FID)
+            add("%s-structlit-assign-%d" % (tn, v), st, "    S_%s s;\n    s = {1, %s, 3};\n" % (tn, lv), "s.m", v, lo, hi, INIT_FID)
+    return cases
+
+
 def indirect_step_cases():
     """++ / -- / += through an indirection at the boundary of the target's type: one step inside the range is stored, the
     step that leaves it stops the program (an unsigned target at 0 stays 0 under --)"""
@@ -263,6 +299,7 @@ def main(a):
     c.raw_suite("indirect-stores", indirect_store_cases(), max_report=8)
     c.raw_suite("indirect-steps", indirect_step_cases(), max_report=8)
     c.raw_suite("const-parameters", const_param_cases(), max_report=6)
+    c.raw_suite("initialisers", initialiser_cases(), max_report=6)
     n = 500 if quick else 50000
     rnd = [gen_core.gen_program(a.seed, 41, k, c.gates, size=25, features={"narrow": True})[0] for k in range(n)]
     c.suite("random-narrow", rnd, nontrivial=lambda r: hash(r.sexp) if r.status == "exit1:range" else None)
